@@ -46,17 +46,17 @@ Section Enc.
   Proof. unfold prev_id, ident, prev_is. apply enc_eqb16. Qed.
 
   (* the store read succeeds; RollbackTo succeeds (its failure is an error of its own, reported at index 0) *)
-  Theorem side_chain_is_source c fr head tail :
+  Theorem side_chain_is_source c fr head tail start :
     let target := by_height c (u64 (s_height head - 1)) in
-    InsertChain_sidechain (prev_id head) (ident fr) 0
+    InsertChain_sidechain start (prev_id head) (ident fr) 0
       (match target with Some _ => true | None => false end)
       (match target with Some t => ident t | None => 0 end)
       (s_height fr) (match target with Some t => s_height t | None => 0 end) (s_height tail) 0
     = match side_decision c fr head tail with
       | None => (-1, 0)
-      | Some ELink => (0, Err_new_can_t_link_momentums_to_insert__First_momentum_P)
-      | Some ETooFar => (0, Err_new_can_t_rollback_to__v__Too_far__Frontier_is__v__W)
-      | Some _ => (0, Err_new_won_t_insert_side_chain_which_is_not_longer)
+      | Some ELink => (start, Err_new_can_t_link_momentums_to_insert__First_momentum_P)
+      | Some ETooFar => (start, Err_new_can_t_rollback_to__v__Too_far__Frontier_is__v__W)
+      | Some _ => (start, Err_new_won_t_insert_side_chain_which_is_not_longer)
       end.
   Proof.
     cbv zeta. unfold InsertChain_sidechain, side_decision. rewrite prev_is_enc.
@@ -82,12 +82,12 @@ Theorem insert_chain_uses_side_decision bvalid mvalid clears c pool ds start hea
   let tail := last (head :: rest) head in
   insert_chain bvalid mvalid true clears c pool ds =
   match side_decision c fr (d_mom head) (d_mom tail) with
-  | Some e => (ICErr 0 e, (c, pool))
+  | Some e => (ICErr start e, (c, pool))
   | None =>
     if prev_is (d_mom head) fr then apply_all bvalid mvalid c pool (head :: rest) start
     else match by_height c (u64 (s_height (d_mom head) - 1)) with
          | Some target => apply_all bvalid mvalid (rollback_to c (s_height target)) (if clears then [] else pool) (head :: rest) start
-         | None => (ICErr 0 ELink, (c, pool))
+         | None => (ICErr start ELink, (c, pool))
          end
   end.
 Proof.
